@@ -91,15 +91,22 @@ def judge(data, cfgname, reqs, end_kind):
     return None, ",".join(cls) + "|" + tail
 
 
-def check_stream(data, cfgname):
+def check_stream(data, cfgname, cuts=(), program=None):
+    """cuts: offsets at which the stream is cut into separate reads; program: how the application reads each body
+    (None = read() to the end).  The oracle reads the whole stream: framing must not depend on either."""
     cfg = gparse.make_cfg(**CONFIGS[cfgname])
-    reqs, kind, exc, text = gparse.parse_stream([data], cfg)
+    reqs, kind, exc, text = gparse.parse_stream(gparse.cut(data, cuts), cfg, program=program)
     v, oc = judge(data, cfgname, reqs, kind)
     if v is None:
         return None, oc
     fp, summary = v
-    return violation(fp, "cfg=%s stream=%r: %s" % (cfgname, data[:120], summary),
-                     {"data": data.decode("latin-1"), "cfg": cfgname}), oc
+    extra = ""
+    if cuts or program:
+        fp = ("seg:" if cuts else "api:") + fp
+        extra = " cuts=%s program=%s" % (list(cuts), program)
+    return violation(fp, "cfg=%s stream=%r%s: %s" % (cfgname, data[:120], extra, summary),
+                     {"data": data.decode("latin-1"), "cfg": cfgname, "cuts": list(cuts),
+                      "program": [list(x) for x in program] if program else None}), oc
 
 
 # ---------------------------------------------------------------- generators ---------------
@@ -221,6 +228,41 @@ def gen_pairs(seed, alphabet, lo, hi):
                     yield seed[:i] + a + seed[i:j] + b + seed[j:]
 
 
+LONG = (b"line one\n" + b"x" * 1500 + b"\nmid\n" + b"y" * 1400 + b"\r\nend")
+SEG_SEEDS = SEEDS + [
+    b"POST /t HTTP/1.1\r\nTransfer-Encoding: chunked\r\n\r\n3\r\nabc\r\n0\r\nT: 1\r\nU: 2\r\n\r\n" + NEXT,
+    b"POST /t HTTP/1.1\r\nTransfer-Encoding: chunked\r\n\r\n0\r\n\r\n" + NEXT,
+    b"GET /n HTTP/1.1\r\n\r\n" + NEXT,
+]
+API_SEEDS = [
+    b"POST /l HTTP/1.1\r\nContent-Length: %d\r\n\r\n" % len(LONG) + LONG + NEXT,
+    b"POST /l HTTP/1.1\r\nTransfer-Encoding: chunked\r\n\r\n%x\r\n" % len(LONG) + LONG + b"\r\n0\r\n\r\n" + NEXT,
+    b"POST /l HTTP/1.1\r\nTransfer-Encoding: chunked\r\n\r\n9\r\nline one\n\r\n%x\r\n" % (len(LONG) - 9) + LONG[9:] + b"\r\n0\r\nT: 1\r\n\r\n" + NEXT,
+]
+PROGRAMS = [(("read", 1),), (("read", 1000),), (("readline", None),), (("readline", 5),),
+            (("readline", None), ("read", 8192)), (("readline", None), ("read", 100)), (("readline", 4), ("read", 2000)),
+            (("read", 3), ("readline", None), ("read", 1024)), (("readline", None), ("readline", None), ("read", 1))]
+
+
+def gen_segments(kmax):
+    """every seed cut at every set of at most kmax offsets (oracle: the whole-stream strict reading)"""
+    for s in SEG_SEEDS:
+        for cuts in gparse.all_cuts(len(s), kmax):
+            if cuts:
+                yield (s, cuts, None)
+
+
+def gen_api():
+    """body read programs x (whole | every single cut inside the body region)"""
+    for s in API_SEEDS:
+        b0 = s.index(b"\r\n\r\n") + 4
+        cutsets = [()] + [(c,) for c in list(range(b0 - 2, b0 + 30)) + list(range(len(s) - len(NEXT) - 20, len(s) - len(NEXT) + 3))] \
+            + [(b0 + 1024,), (b0 + 1023, b0 + 2048)]
+        for prog in PROGRAMS:
+            for cuts in cutsets:
+                yield (s, cuts, prog)
+
+
 ODD = [b"\x00", b"\r", b"\n", b" ", b"\t", b"\x0b", b"\x0c", b"\x85", b"\xa0", b",", b";", b":"]
 
 # ---------------------------------------------------------------- driver -------------------
@@ -240,6 +282,10 @@ def _gens(tier):
     for i, s in enumerate(SEEDS):
         G["bytes-seed%d" % i] = ((lambda s=s: gen_bytes(s)), ["default"] if not thorough else ["default", "refuse", "anymethod"])
     G["bytes-proxy"] = (lambda: gen_bytes(PROXY_SEED), ["proxy"])
+    G["segments-1cut"] = (lambda: gen_segments(1), ["default", "small-limits"])
+    if thorough:
+        G["segments-2cuts"] = (lambda: gen_segments(2), ["default"])
+    G["body-read-programs"] = (gen_api, ["default"])
     if True:
         te = SEEDS[1]
         a = te.index(b"Transfer-Encoding:")
@@ -266,7 +312,11 @@ def _task(t):
         if idx % NSHARD != shard:
             continue
         evals += 1
-        v, oc = check_stream(data, cfgname)
+        if isinstance(data, tuple):
+            v, oc = check_stream(data[0], cfgname, data[1], data[2])
+            data = data[0]
+        else:
+            v, oc = check_stream(data, cfgname)
         outcomes[oc] = outcomes.get(oc, 0) + 1
         if sample is None and oc not in ("F,F|stop",):
             sample = data
@@ -345,12 +395,16 @@ def run(ctx):
         "configs": sorted(CONFIGS),
     }
     return Result("exploration", cov, viols,
-                  ["whole stream delivered in one read (segmentation is C06)",
+                  ["most streams are delivered in one read; the seed streams are also cut at every offset and judged by the same "
+                   "whole-stream oracle (segmentation-independence in general is C06)",
+                   "bodies are drained with read() except in the body-read-programs generator (the input API in general is C07)",
                    "documented-unsafe parser modes are excluded",
                    "request lines the strict grammar cannot read are not judged (counted as unjudged_noread)",
                    "gunicorn rejecting more than the RFC requires is not a violation (counted as over_rejections)"])
 
 
 def replay(case):
-    v, _ = check_stream(case["data"].encode("latin-1"), case["cfg"])
+    prog = case.get("program")
+    v, _ = check_stream(case["data"].encode("latin-1"), case["cfg"], tuple(case.get("cuts") or ()),
+                        tuple(tuple(x) for x in prog) if prog else None)
     return v
